@@ -93,6 +93,8 @@ def standard_lattice(seed, quick):
         {"model": "G2hole"},
         {"model": "G2cut"},
         {"model": "G2step"},
+        {"model": "G2ba"},
+        {"model": "G2ba", "kwargs": {"reparameterisations": {"a": "inversion", "b": "logit"}}},
         {"model": "G2open"},
         {"model": "G2open", "kwargs": {"reparameterisations": "null"}},
         {"model": "G2step", "resume": "every", "kwargs": {"nlive": 10, "poolsize": 10}},
@@ -467,6 +469,7 @@ def ins_lattice(seed, quick, resume_subsets=True):
         assigns.append({"model": "G2step", "replace_all": True, "threshold_method": "quantile"})
         assigns.append({"model": "G2cut", "draw_constant": False, "reparameterisation": None})
         assigns.append({"model": "G2hole", "draw_iid_live": False, "strict_threshold": True})
+        assigns.append({"model": "G2ba"})
         assigns.append({"model": "G2tilt"})
         assigns.append({"model": "G2tilt", "draw_iid_live": False, "reparameterisation": None})
         assigns.append({"min_remove": 5})
